@@ -150,7 +150,7 @@ def search(rng, bad_cases):
             yield case(w[1], int(w[2]), None if w[3] == "-" else int(w[3]), g.batch_singletons(evs, lambda i: rng.random() < 0.5))
 
 
-ENABLED = False
+ENABLED = True
 LEVEL = "proof"
 LEVEL_TEXT = "pending"
 LEVEL_NOTE = "pending"
